@@ -267,7 +267,7 @@ def run(ctx):
                    if not ok else "after propagation was stopped the loop can still reach a listener call")
 
     # ---------------------------------------------------------------- R4
-    r = ctx.rule("C12-R4", "RESET", "the sorted list of an event is rebuilt from empty", reference=1)
+    r = ctx.rule("C12-R4", "RESET", "the sorted list of an event is rebuilt from empty", reference=2)
     cfg = ctx.cfg(sort)
     appends = [c for c in q.calls(sort) if isinstance(c.func, ast.Attribute) and c.func.attr in ("append", "extend")
                and q.self_attr_root(c.func.value) == CACHE]
@@ -343,7 +343,7 @@ def run(ctx):
 
     # ---------------------------------------------------------------- R6
     r = ctx.rule("C12-R6", "GUARD", "get_listeners returns the cached list only after a cache miss was rebuilt; "
-                 "dispatch hands exactly that list and the same event name to the dispatch loop", reference=3)
+                 "dispatch hands exactly that list and the same event name to the dispatch loop", reference=4)
     gl = methods.get("get_listeners")
     dp = methods.get("dispatch")
     ctx.require(gl and dp, "get_listeners/dispatch missing")
@@ -461,7 +461,7 @@ def run(ctx):
 
     # ---------------------------------------------------------------- R9
     r = ctx.rule("C12-R9", "INVALID", "whether an event has listeners is asked when it is dispatched, never remembered: outside the dispatcher no "
-                 "object state is written from, or under a test of, has_listeners() - a listener registered later must take part in the next dispatch", reference=2)
+                 "object state is written from, or under a test of, has_listeners() - a listener registered later must take part in the next dispatch", reference=3)
     n_q = 0
     for fi in p.all_functions():
         if fi.cls is disp.cls:
